@@ -1,5 +1,6 @@
 import BB.Oracle.Util
 import BB.Model.Cleanup
+import BB.Model.Buffer
 
 namespace BB.Oracle.CleanGateFam
 open BB.Cleanup BB.Oracle
@@ -36,6 +37,20 @@ def reclaim (cd window : String) (parked : Bool) : Option (Unit × String × Lis
 
 def stepF (_ : Unit) (w : List String) : Option (Unit × String × List String) :=
   match w with
+  | ["fixedbehind", _] =>
+    -- L1 model of the scenario: Put 1..4, four Gets, Put 5, the forced trim (size 5 > 4 -> 5 - 4 = 1), Commit, then the cleaner
+    -- evaluated once more on the committed state (the premise of C04 holds: the only consumer has committed past the head)
+    let s0 := (BB.Buffer.newConsumer BB.Buffer.init).1
+    let s1 := (BB.Buffer.put s0 [1, 2, 3, 4]).1
+    let s2 := (List.range 4).foldl (fun s _ => (BB.Buffer.get s 0).1) s1
+    let s3 := (BB.Buffer.cleanFixed (BB.Buffer.put s2 [5]).1 4 4).1
+    let s4 := (BB.Buffer.commit s3 0).1
+    let s5 := (BB.Buffer.cleanFixed s4 4 4).1
+    some ((), s!"size={BB.Buffer.size s5}", ["commit_behind_the_head_after_forced_trim"])
+  | ["busy", _] =>
+    -- BB.Props.C04 (pending_evaluation / at_most_one_expiry): a change recorded during a cooldown is evaluated at its expiry, whether
+    -- or not further changes keep arriving; five cooldowns of uninterrupted activity therefore see at least two cleanups
+    some ((), "reclaimed_during_activity=1", ["sustained_activity"])
   | ["reclaim", cd, _event, window] => reclaim cd window false
   -- consumers parked in a blocking Get share the condition variable but not the cleaner's state: same prediction
   | ["reclaim", cd, _event, window, _parked] => reclaim cd window true
